@@ -295,7 +295,8 @@ def run(ctx):
         ctx.infra.append('no bundle could be produced')
     for f in bfiles:
         ops.append(f'c10.bundle {hexs(f)}')
-        for mu in mutants(f, rng, 40, 60, 25) + retabled(f):
+        import c05          # (lazy: c05 imports this module)
+        for mu in mutants(f, rng, 40, 60, 25) + retabled(f) + c05.index_mutants(f):
             ops.append(f'c10.bundle {hexs(mu)}')
     for magic in (bytes([0x86, 0x48, 0xf0, 0x9f, 0x8c, 0x90, 0xf0, 0x9f, 0x93, 0xa6, 0x44]) + b'b1\0\0', bytes([0x85, 0x48, 0xf0, 0x9f, 0x8c, 0x90, 0xf0, 0x9f, 0x93, 0xa6, 0x44]) + b'b2\0\0'):
         for _ in range(20 * scale):
